@@ -20,7 +20,7 @@ CLAIMED = {
          "Decoding a non-premultiplied 8-bit pixel is the table entry per channel for EVERY alpha (colour independent of alpha, alpha = A/255) in all four spaces; for every ordered pair and every linear source colour the pipeline's linear stage is within 4e-6 of the independent colorimetric reference A_ref*d (identity for a space to itself); with the decode (C01), encode (C02) and alpha (C14) contracts this bounds the per-channel code error as stated in evidence.",
          "Trusted: executor, solvers, rounding model; the glue from stage contracts to the end-to-end statement is arithmetic on the proven bounds (stated, not a query over code).", "DESIGN.md 5 C04"),
  "C05": ("model_checking", "bounded symbolic execution of the real loaders (go/ssa -> SMT-LIB2 bit-vectors, z3)",
-         "Every metadata field is proved equal to the container specification's bytes by an unsat verdict over all values of every symbolic header/payload byte of the skeleton files; bounded by skeleton shape (<=2 ancillary chunks/segments, payloads <=5 bytes).",
+         "Every metadata field is proved equal to the container specification's bytes by an unsat verdict over all values of every symbolic header/payload byte of the skeleton files; bounded by skeleton shape (<=2 ancillary chunks/segments, payloads <=5 bytes; PNG also with an iCCP chunk whose name has 1, 78 or 79 bytes).",
          "Trusted: go/ssa construction, the gosym executor (cross-validated natively on sampled path models each run), z3 4.8.12. Oracle is the PNG/JPEG/RIFF-WebP byte layout written in the harness, not DecodeConfig.", "DESIGN.md 5 C05"),
  "C06": ("model_checking", "bounded symbolic execution of the loaders on ICC-carrying skeletons with symbolic chunk numbers/totals/flags/payload bytes",
          "Returned profile bytes are proved equal, byte for byte as bit-vector terms, to the specification-side assembly (ICC.1 Annex B order for JPEG with all chunk orders and damage classes as models of one harness; WebP ICCP payload incl. sizes around 4096; the exact compressed bytes handed to inflate for PNG), damaged sets give (nil,error) with metadata, absence gives (nil,nil).",
@@ -29,10 +29,10 @@ CLAIMED = {
          "On every feasible path over N arbitrary symbolic bytes (every truncation, every fault position, three delivery schedules) and over every truncation of skeleton files, the drained stream equals the delivered source bytes and surfaces the injected error; bounded by N (PNG 28, JPEG 14, WebP 40, auto 12 in quick); plus, through autometa, inputs longer than every internal buffer (signature + 4090..9000 bytes of ancillary data per format, whole and cut at 4097).",
          "Trusted: executor (cross-validated natively on sampled paths), z3; zlib replaced by a nondeterministic stub (inflate not modelled); path feasibility is the solver's, byte equality is term identity.", "DESIGN.md 5 C07"),
  "C08": ("model_checking", "two-run (2-safety) bounded symbolic execution: full delivery vs. chunked delivery of the same symbolic content",
-         "Metadata, ICC bytes/error-ness and success outcome are proved identical between a fully delivering reader and readers delivering 1,2,3,7-byte chunks (with and without data+EOF), for skeleton files with symbolic fields, small arbitrary inputs, and the ICC reader behind bufio on a 9000-byte profile (chunks 1,2,3,7,100, everything at once, 8192; data+EOF delivery, so bufio's direct-read path is taken).",
+         "Metadata, ICC bytes/error-ness and success outcome are proved identical between a fully delivering reader and readers delivering 1,2,3,7-byte chunks (with and without data+EOF), for skeleton files with symbolic fields (with and without an embedded profile, all three formats), small arbitrary inputs, and the ICC reader behind bufio on a 9000-byte profile (chunks 1,2,3,7,100, everything at once, 8192; data+EOF delivery, so bufio's direct-read path is taken).",
          "Trusted: executor, z3, deterministic zlib stub. Schedules are the enumerated fixed chunk sizes, not all compositions.", "DESIGN.md 5 C08"),
  "C09": ("model_checking", "bounded symbolic execution with engine-level panic / allocation-budget / instruction-budget obligations; symbolic allocation sizes decided by satisfiability queries",
-         "For N arbitrary symbolic bytes per loader and for structured inputs whose every length, count, offset and size field is an unconstrained symbolic word, no path lets a panic escape, exceeds 16N+128KiB allocated bytes, or exceeds 4000N+200000 SSA instructions; an over-budget allocation is found as the model of a single query (all 2^32 values of a length field at once). The mluc/textDescription decoders are explored in six shapes, one run each (300 s wall budget per shape).",
+         "For N arbitrary symbolic bytes per loader and for structured inputs whose every length, count, offset and size field is an unconstrained symbolic word, no path lets a panic escape, exceeds 16N+128KiB allocated bytes, or exceeds 4000N+200000 SSA instructions; an over-budget allocation is found as the model of a single query (all 2^32 values of a length field at once). Also: 100 tags sharing one 3000-byte element, 40 mluc records sharing one 3000-byte string (memory must stay linear). The mluc/textDescription decoders are explored in seven shapes, one run each (300 s wall budget per shape).",
          "Trusted: executor's allocation accounting (sizes from go/types for gc/amd64, append growth approximated), z3, zlib stub (its output excluded). SSA instruction count is the proxy for time.", "DESIGN.md 5 C09"),
  "C17": ("model_checking", "bounded symbolic execution of ProfileReader.ReadProfile / Profile.Description over all tag placements and mluc string placements with symbolic content",
          "Every tag entry equals in[offset:offset+size] for every placement of k<=2 tags in an 8-byte data area (k=0 included); the description equals the ASCII bytes of a textDescription, or the UTF-16BE decoding at an 'en' record's declared offset (else some record's) for every placement of <=2 records' strings.",
